@@ -196,7 +196,25 @@ pub fn run_generated<C: PropCheck>(check: &C, cfg: &RunCfg, cases: u64, batch: u
                     let outs = match check.eval(worker.as_mut(), &vals) {
                         Ok(o) => o,
                         Err(e) => {
-                            rep.errors.push(e);
+                            // find the case in flight: re-run the batch one by one on fresh workers and keep the culprit
+                            let mut culprit = None;
+                            for v in &vals {
+                                let mut w2 = if check.needs_worker() { Worker::spawn().ok() } else { None };
+                                if check.eval(w2.as_mut(), std::slice::from_ref(v)).is_err() {
+                                    culprit = Some(check.case_json(v));
+                                    break;
+                                }
+                            }
+                            let where_ = match culprit {
+                                Some(c) => {
+                                    let path = format!("{}/replays/{}-machinery-{:016x}.json", crate::jsworker::verif_root(), cfg.prop, fnv64(c.to_string().as_bytes()));
+                                    let _ = std::fs::create_dir_all(format!("{}/replays", crate::jsworker::verif_root()));
+                                    let _ = std::fs::write(&path, serde_json::to_string_pretty(&json!({"property": cfg.prop, "machinery_error": e, "case": c})).unwrap());
+                                    format!(" (case saved to {})", path)
+                                }
+                                None => " (not reproducible case by case)".to_string(),
+                            };
+                            rep.errors.push(format!("{}{}", e, where_));
                             break;
                         }
                     };
